@@ -301,3 +301,52 @@ Theorem C04_stutter_steps :
       = ws_file (last (map fst (trace (impl_step hdrdec f) s (x_sops ops))) s).
 Proof. exact StoreSpecStutter.xtrace_stutter. Qed.
 Print Assumptions C04_stutter_steps.
+
+(* ---- the readers' size limits: MaxAllowedSectionSize / MaxAllowedHeaderSize (strict ">": a length EQUAL to the
+   limit is accepted) ------------------------------------------------------------------------------------------
+   [spec_step_lim] (StoreSpec.v) is the reference map that knows the limits: a lookup walks the stored blocks
+   carrying the key's digest and is refused with ESectionTooLarge at one whose section is LONGER than the
+   limit; Roots is refused with EHeaderTooLarge when the header is LONGER than the limit. *)
+From GoCarProofs Require StoreSpecLimits.
+
+(* within the limits -- every put section of length <= MaxAllowedSectionSize, header <= MaxAllowedHeaderSize --
+   the stores refine the map with limits (which is then the plain map): every read op reads back *)
+Theorem C04_refines_map_with_limits :
+  forall (hdrdec : bytes -> option (list bytes * N)) (k : skind) (o : wopts) (nilroots : bool)
+         (roots : list bytes),
+    51 + w_dpad o + w_ipad o < two64 ->
+    hdrdec (enc_header (roots_opt nilroots roots) 1) = Some (roots, 1) ->
+    blen (enc_header (roots_opt nilroots roots) 1) <= w_maxh o ->
+    blen (enc_header (roots_opt nilroots roots) 1) < two63 ->
+    forall s0 : wstate, open_new k o nilroots roots [] = Ok s0 ->
+    forall (f : front) (ops : list sop),
+    (Forall (op_ok o) ops /\
+     51 + w_dpad o + w_ipad o + ld_size (blen (enc_header (roots_opt nilroots roots) 1)) + ops_size ops < two64) ->
+    outs (trace (impl_step hdrdec f) s0 ops)
+    = outs (trace (spec_step_lim f o roots (blen (enc_header (roots_opt nilroots roots) 1))) m_empty ops).
+Proof. exact StoreSpecLimits.refines_map_lim. Qed.
+Print Assumptions C04_refines_map_with_limits.
+
+(* beyond the limit: a block with a fresh digest that Put accepts although its section is LONGER than
+   MaxAllowedSectionSize: Has says yes, Get (both front-ends) and GetSize refuse with ESectionTooLarge *)
+Theorem C04_oversize_section_is_refused_by_readers :
+  forall (s : wstate) (hb : bytes) (bs : stored_blocks) (c d : bytes) (p : cidp),
+    StoreInv.Inv s hb bs -> d_faults (ws_dev s) = [] -> cid_parse c = Some p ->
+    Forall (fun b => forall q, cid_parse (fst b) = Some q -> bytes_eqb (c_digest q) (c_digest p) = false) bs ->
+    should_put (ws_opts s) (ws_idx s) c p = Ok true ->
+    w_maxs (ws_opts s) < blen c + blen d -> blen c + blen d < two63 ->
+    ws_closed s = false -> negb (w_storeid (ws_opts s)) && is_identity p = false ->
+    snd (put_one s c d p) = ONil /\
+    bs_has (fst (put_one s c d p)) c = OBool true /\
+    bs_get (fst (put_one s c d p)) c = OErr ESectionTooLarge /\
+    (is_identity p = false -> bs_getsize (fst (put_one s c d p)) c = OErr ESectionTooLarge) /\
+    st_get (fst (put_one s c d p)) true c = OErr ESectionTooLarge.
+Proof. exact StoreSpecLimits.oversize_put_then_read. Qed.
+Print Assumptions C04_oversize_section_is_refused_by_readers.
+
+Theorem C04_header_over_limit_is_refused :
+  forall (hdrdec : bytes -> option (list bytes * N)) (s : wstate) (hb : bytes) (bs : stored_blocks),
+    StoreInv.Inv s hb bs -> ws_closed s = false -> w_maxh (ws_opts s) < blen hb -> blen hb < two63 ->
+    bs_roots hdrdec s = OErr EHeaderTooLarge.
+Proof. exact StoreSpecLimits.roots_header_over_limit. Qed.
+Print Assumptions C04_header_over_limit_is_refused.
